@@ -14,7 +14,7 @@ import sqlite3
 from sim import devices
 from sim.canon import Log, dec_table, canon_rows
 from sim.core import outcome
-from sim.devices import SimTable, SimSourceError
+from sim.devices import SimTable, SimSourceError, SOURCE_ERROR_KINDS
 from sim.loader import load_petl
 
 PROP = 'C17'
@@ -89,6 +89,11 @@ def gen_case(rng, tier, g):
                                   'failed-then-rollback']),
             'pipeline': rng.random() < 0.3,
             'schema': rng.choice([None, None, 'main']),
+            # exception classes the failing source raises, cycled over the
+            # failure indexes (code that catches TypeError etc. for its own
+            # purposes must not swallow a source failure)
+            'exc_kinds': rng.sample(SOURCE_ERROR_KINDS,
+                                    rng.choice([1, 2, 3])),
             'read_via': rng.choice(['conn', 'name', 'mkcurs', 'cursor'])}
 
 
@@ -209,7 +214,7 @@ def _one(e, case, path, op, handle, commit, fault, log):
             expect_exc = sqlite3.ProgrammingError
         src = SimTable(rows, mode='copy')
         if fault is not None and fault[0] == 'raise':
-            src.arm(fault[1])
+            src.arm(fault[1], kind=fault[2] if len(fault) > 2 else 'plain')
             expect_exc = SimSourceError
         source = e.convert(e.wrap(src), 0, lambda v: v) \
             if case['pipeline'] else src
@@ -290,7 +295,9 @@ def run_case(case):
     e = load_petl()
     log = Log()
     n = len(case['table']) - 1
-    faults = [None] + [['raise', i] for i in range(0, n + 2)] + \
+    kinds = case.get('exc_kinds') or ['plain']
+    faults = [None] + [['raise', i, kinds[i % len(kinds)]]
+                       for i in range(0, n + 2)] + \
         [['badrow', i] for i in range(1, n + 1)]
     nruns = 0
     _SCHEMA[0] = case.get('schema')
